@@ -35,6 +35,7 @@ func TestExt03AgainstNativeGo(t *testing.T) {
 	body, err := Translate(".", TransSpec{Dir: "internal/sample", Ext03: true,
 		Structs: []string{"Inner", "Outer", "Named", "View", "Arr", "Sorted"},
 		Ifaces:  map[string][]string{"Shape": {"Arr", "Twin"}},
+		Heads:   []string{"Opaque2.Split"},
 		Funcs: []string{"Inner.Put", "Inner.Has", "Outer.Put", "Outer.Promoted", "Outer.Clear", "Outer.Drop", "Outer.Mark", "Twin.Put", "Twin.Has",
 			"Twin.Count", "Named.Set", "View.Step", "View.Cur", "View.Has", "Arr.Has", "Arr.Put", "Arr.Promote", "Arr.Delete", "Mid", "FillBuf",
 			"Sorted.Insert"}})
@@ -156,6 +157,13 @@ func TestExt03AgainstNativeGo(t *testing.T) {
 				return fmt.Sprintf("(%s, %s, %s)", zs(a), zs(b), zs(c))
 			})
 		}
+	}
+	// the head of Split: the declared variables that are used afterwards, in declaration order: (high, low, n)
+	for _, num := range []uint32{0, 1, 65535, 65536, 0xdeadbeef, 0xffffffff} {
+		num := num
+		add(fmt.Sprintf("g_Opaque2_Split_head %d [4; 5]", num), func() string {
+			return fmt.Sprintf("(%d, %d, 3)", uint16(num>>16), uint16(num))
+		})
 	}
 	for _, bl := range []int{0, 1, 2, 3, 6} {
 		for _, n := range []int{-1, 0, 2, 5, 9} {
